@@ -4,6 +4,24 @@
 
 package phantoms
 
+//@ import big "math/big"
+//@ import net "net"
+
+// ---------------- C14: the selected phantom is a well-formed address inside the subnet ----------------
+// A parsed subnet (net.ParseCIDR): masked base address, canonical mask of the same length, 4 or 16 bytes, and
+// base + 2^hostbits does not leave the address space. IPv4-mapped 16-byte networks are excluded here (DESIGN.md C14 #4).
+//@ define wfNet(n *phantomNet) bool = n != nil && n.IPNet != nil && (len(n.IPNet.IP) == 4 || len(n.IPNet.IP) == 16) && !isV4Mapped(n.IPNet.IP) && maskBits(n.IPNet.Mask) == 8 * len(n.IPNet.IP) && 0 <= maskOnes(n.IPNet.Mask) && maskOnes(n.IPNet.Mask) <= maskBits(n.IPNet.Mask) && beStr(string(n.IPNet.IP)) + pow2(maskBits(n.IPNet.Mask) - maskOnes(n.IPNet.Mask)) <= pow2(maskBits(n.IPNet.Mask))
+
+//@ func selectAddrFromSubnetOffset(net1 *phantomNet, offset *big.Int) (*PhantomIP, error)
+//@   requires wfNet(net1) && offset != nil && bigval(offset) >= 0
+//@   let base := beStr(string(net1.IPNet.IP))
+//@   let size := pow2(maskBits(net1.IPNet.Mask) - maskOnes(net1.IPNet.Mask))
+//@   ensures @C14: old(bigval(offset)) >= old(size) ==> result1 != nil
+//@   ensures @C14: result1 == nil ==> result0 != nil && result0.ip != nil && len(*result0.ip) == len(net1.IPNet.IP)
+//@   ensures @C14: result1 == nil ==> beStr(string(*result0.ip)) == old(base) + old(bigval(offset)) && old(base) <= beStr(string(*result0.ip)) && beStr(string(*result0.ip)) < old(base) + old(size)
+//@   ensures @C14: result1 == nil ==> result0.supportRandomPort == net1.supportRandomPort
+//@   checks safety
+
 // Frame of the subnet loader as its callers need it (reads the environment and a file, builds fresh objects).
 //@ func GetPhantomSubnetSelector() (*PhantomIPSelector, error)
 //@   ensures result1 == nil ==> result0 != nil
